@@ -79,7 +79,7 @@ def ob_merge_lemma_b(mkl, timeout_ms):
 
 def extra(tier):
     hhh.hh()
-    tmo = 240000 if tier == "quick" else 900000
+    tmo = 600000 if tier == "quick" else 1200000
     obs = []
     for mkl in ((1, 2) if tier == "quick" else (1, 2, 3)):
         for Ly in range(0, mkl + 2):
